@@ -53,6 +53,9 @@ fn classes(s: &Stats, t: &Trace) -> Vec<&'static str> {
     if s.replays > 0 {
         c.push("replayed-request");
     }
+    if s.replay_deferred_by_window > 0 {
+        c.push("replay-paced-by-smaller-receive-maximum");
+    }
     if s.rel_replays > 0 {
         c.push("replayed-pubrel");
     }
@@ -311,6 +314,7 @@ pub const C06: ScenDef = ScenDef {
         payload_max: 8,
         pub_props: false,
         rm: vec![Some(1), Some(1), Some(2), Some(2), Some(3), Some(4), Some(7), Some(8), Some(9), Some(300), Some(65535), None],
+        vary_rm_pct: 40,
         ..Profile::default()
     },
     nontrivial: |s, _| s.small_rm_qos2 || s.resumed_with_inflight > 0,
